@@ -146,7 +146,7 @@ def run_check(pid, tier, seed, PROPS, verbose=False):
     # ---- bounded stand-in (also the search for concrete failing inputs)
     bounded = []
     for script in cfg.get('bounded', []):
-        b = run_bounded(script + (' ' + pid if script in ('parse.py', 'tree.py', 'constructs.py') else ''), tier, seed)
+        b = run_bounded(script + (' ' + pid if script in ('parse.py', 'tree.py', 'constructs.py', 'edits.py') else ''), tier, seed)
         bounded.append(b)
         if b.get('error'):
             undecided.append('bounded sweep %s failed to run: %s' % (script, b['error'][-300:]))
